@@ -41,6 +41,22 @@ def run(ctx, chk):
         if len(cs) != 1:
             raise Anchor("Parser::parse: expected exactly one call of %s, found %d" % (name, len(cs)))
         return cs[0]
+    direct = all(len([i for i in g.calls(n_, t_)]) == 1 for n_, t_ in (("initialize", "parser::Consumer"), ("consume_header", "parser::Consumer"),
+                                                                       ("consume_instruction", "parser::Consumer"), ("finalize", "parser::Consumer"),
+                                                                       ("parse_header", None), ("parse_inst", None)))
+    if not direct:
+        # parse() reaches some of these through a helper: the dominator rules below need them in one control-flow graph; the
+        # scripted evaluation (R-PROTO-2) decides the protocol in that case
+        R2 = chk.rule("R-PROTO-2", "Parser::parse evaluated against scripted consumers, header results and instruction streams: the callbacks made and "
+                      "the result are exactly the protocol's")
+        from . import headerx
+        np_ = 0
+        for inst, pb, sample in headerx.parse_problems(ctx):
+            np_ += 1
+            chk.check(R2, pb is None, inst, "%s: %s" % (inst, pb), W, key="C14:script:" + inst)
+        chk.floor(R2, "scripts", np_, 15)
+        _rest(ctx, chk, raw, mir, W, g, sites_by)
+        return
     I = one_call("initialize", "parser::Consumer")
     H = one_call("consume_header", "parser::Consumer")
     CI = one_call("consume_instruction", "parser::Consumer")
@@ -73,6 +89,10 @@ def run(ctx, chk):
     chk.check(R3, g.dominates(PI, FZ), "parse_inst dominates finalize", "finalize reachable without parse_inst", W)
     chk.check(R3, PI in g.reachable(g.blocks[CI]["t"]["to"][0]), "loop", "consume_instruction is not followed by the next parse_inst", W)
 
+    _rest(ctx, chk, raw, mir, W, g, sites_by)
+
+
+def _rest(ctx, chk, raw, mir, W, g, sites_by):
     R4 = chk.rule("R-PROTO-4", "Action::consume maps Continue->Ok(()), Stop->Err(ConsumerStopRequested), Error(e)->Err(ConsumerError(e)); "
                   "State::Complete is constructed at exactly one site, in parse_inst, on the path where the first word of an instruction "
                   "could not be read")
